@@ -71,6 +71,7 @@ func c14(c *Ctx) {
 	c14NilMsg(c)
 	c14FixedKey(c)
 	c14StrSlice(c)
+	c14RSACarry(c)
 }
 
 // ---------------------------------------------------------------- validate
